@@ -1,0 +1,5 @@
+// +build !verif
+
+package concurrencylimiter
+
+func verifYield(site string) {}
